@@ -934,9 +934,11 @@ pub fn check_pred(ctx: &mut Ctx, case: &Pred) -> R {
                 (Some(false), "shape")
             } else if x.iter().zip(y).all(|(a, b)| a.to_bits() == b.to_bits()) {
                 (Some(true), "identical")
-            } else if x.iter().zip(y).any(|(a, b)| a * b < 0.0 && a.abs() > tol && b.abs() > tol) {
+            } else if x.iter().zip(y).any(|(a, b)| (*a < 0.0 && *b > 0.0) || (*a > 0.0 && *b < 0.0)) {
+                // "never equate values of opposite sign": any magnitude, down to subnormals (signs are compared
+                // directly: a product of two tiny values underflows to ±0 and loses the sign information)
                 (Some(false), "opposite-sign")
-            } else if x.iter().zip(y).any(|(a, b)| a * b > 0.0 && (a - b).abs() / a.abs().max(b.abs()) >= 10.0 * tol) {
+            } else if x.iter().zip(y).any(|(a, b)| ((*a > 0.0 && *b > 0.0) || (*a < 0.0 && *b < 0.0)) && (a - b).abs() / a.abs().max(b.abs()) >= 10.0 * tol) {
                 (Some(false), "different")
             } else {
                 (None, "not-asserted")
@@ -1014,9 +1016,19 @@ fn pair(n: usize, salt: u64, variant: u8, pos: usize, rel: f64, matrix: bool) ->
 }
 
 fn close_to_strategy() -> impl Strategy<Value = Pred> {
-    (1usize..=16, any::<u64>(), 0u8..5, any::<usize>(), 2i32..=12, any::<bool>()).prop_map(|(n, salt, variant, pos, e, matrix)| {
+    (1usize..=16, any::<u64>(), 0u8..5, any::<usize>(), 2i32..=12, any::<bool>(), 0usize..16).prop_map(|(n, salt, variant, pos, e, matrix, tiny)| {
         let tol = 10f64.powi(-e);
-        let (x, y, sx, sy) = pair(n, salt, variant, pos, 20.0 * tol, matrix);
+        let (mut x, mut y, sx, sy) = pair(n, salt, variant, pos, 20.0 * tol, matrix);
+        // half of the negated pairs get a tiny magnitude (down to the smallest subnormal): far below every
+        // tolerance, and small enough that the product of the two values underflows to zero
+        const TINY: [i32; 8] = [-60, -100, -300, -538, -600, -800, -1022, -1074];
+        if variant % 5 >= 3 && tiny < TINY.len() && x.len() == y.len() {
+            let p = pos % n;
+            let m = 2f64.powi(TINY[tiny].max(-1022)) * if TINY[tiny] < -1022 { 2f64.powi(TINY[tiny] + 1022) } else { 1.0 };
+            let sgn = if x[p] < 0.0 { -1.0 } else { 1.0 };
+            x[p] = sgn * m;
+            y[p] = -x[p];
+        }
         Pred::CloseTo { x, y, tol, sx, sy }
     })
 }
@@ -1133,6 +1145,8 @@ fn run_preds(ctx: &mut Ctx) {
 // ===================================================================================================
 
 pub fn run(ctx: &mut Ctx) {
+    // 28 focus runs of long programs: keep the quick tier at twice the base counts (about 30 s)
+    ctx.qmult = ctx.qmult.min(2);
     ctx.rule = "programs: Vec<Op> over 4 registers (1..=8 rows/cols, distinct integer entries), operands stored as raw selectors and resolved against \
 the current model shapes; every two-step program [fresh r x c; op] is enumerated, then one proptest run per op kind with that kind guaranteed to occur \
 (1..=40 ops, thorough 1..=200). A program is non-trivial when it has >= 3 successful state-changing ops on a non-square matrix or a rejected op followed \
